@@ -32,6 +32,7 @@ type SEnv struct {
 	pc    Term   // guard for auxiliary assumptions emitted during evaluation
 	noAssume bool // evaluation must not emit assumptions (axioms, lemmas)
 	bound []Term // quantified variables in scope
+	loopEntry *State // state on first arrival at the loop header (for entry(e) in invariants)
 }
 
 type evalErr string
@@ -72,27 +73,36 @@ func (env *SEnv) value(v *SVal) *SVal {
 	if v.T.S == "" && v.HasAddr {
 		nv := *v
 		nv.T = env.u.loadType(env.cur, v.Addr, v.Go)
-		// heap well-formedness: every stored value satisfies its type invariant
-		if _, isStruct := v.Go.Underlying().(*types.Struct); !isStruct && !env.noAssume {
-			inv := env.u.typeInv(nv.T, v.Go, env.u.comp(env.cur, "alloc"))
-			var used []Term
-			for _, b := range env.bound {
-				if strings.Contains(nv.T.S, b.S) {
-					used = append(used, b)
-				}
-			}
-			if len(used) > 0 {
-				// inside a quantifier: well-formedness holds for every instance of the bound variables
-				if inv.S != "true" {
-					env.u.assume(True, Forall(used, Implies(env.pc, inv), []Term{nv.T}))
-				}
-			} else {
-				env.u.assume(env.pc, inv)
-			}
-		}
+		env.assumeWF(nv.T, v.Go)
 		return &nv
 	}
 	return v
+}
+
+// assumeWF: heap well-formedness -- every value stored in the heap satisfies its type invariant.
+func (env *SEnv) assumeWF(t Term, goT types.Type) {
+	if env.noAssume || goT == nil {
+		return
+	}
+	if _, isStruct := goT.Underlying().(*types.Struct); isStruct {
+		return
+	}
+	inv := env.u.typeInv(t, goT, env.u.comp(env.cur, "alloc"))
+	if inv.S == "true" {
+		return
+	}
+	var used []Term
+	for _, b := range env.bound {
+		if strings.Contains(t.S, b.S) {
+			used = append(used, b)
+		}
+	}
+	if len(used) > 0 {
+		// inside a quantifier: well-formedness holds for every instance of the bound variables
+		env.u.assume(True, Forall(used, Implies(env.pc, inv), []Term{t}))
+	} else {
+		env.u.assume(env.pc, inv)
+	}
 }
 
 func (env *SEnv) eval(e *SExpr) *SVal {
@@ -453,7 +463,9 @@ func (env *SEnv) index(e *SExpr) *SVal {
 	case *types.Slice:
 		i := env.evalI(e.Args[1])
 		es := u.elemSort(t.Elem())
-		return &SVal{T: Select(Select(u.comp(env.cur, ecomp(es)), SArr(x.T)), ElemIdx(SOff(x.T), i)), Go: t.Elem()}
+		el := Select(Select(u.comp(env.cur, ecomp(es)), SArr(x.T)), ElemIdx(SOff(x.T), i))
+		env.assumeWF(el, t.Elem())
+		return &SVal{T: el, Go: t.Elem()}
 	case *types.Map:
 		k := env.eval(e.Args[1])
 		k = env.coerceGo(k, t.Key())
@@ -461,7 +473,9 @@ func (env *SEnv) index(e *SExpr) *SVal {
 		if vs == SUnit {
 			env.fail("index of set-like map")
 		}
-		return &SVal{T: Select(Select(u.comp(env.cur, mv), x.T), k.T), Go: t.Elem()}
+		mvv := Select(Select(u.comp(env.cur, mv), x.T), k.T)
+		env.assumeWF(mvv, t.Elem())
+		return &SVal{T: mvv, Go: t.Elem()}
 	case *types.Basic:
 		if isString(x.Go) {
 			return &SVal{T: App(SInt, "str_at", x.T, env.evalI(e.Args[1])), Go: types.Typ[types.Uint8]}
